@@ -31,6 +31,7 @@ ASSUMPTIONS = [
     "finite reachability of condition variables is established within 12 iterations (projected value sets stop growing for 4 iterations)",
     "a watchdog expiry is inconclusive, not a refusal",
 ]
+UNINIT_COUNTERFACTUAL = True   # worker: unattributed violations are re-run with explicit initial assignments (diagnose.attribute_uninit)
 TIMEOUT = {"quick": 15, "thorough": 120}
 DEADLINE = {"quick": 80, "thorough": 1000}
 MIN_DECIDING = {"quick": 40, "thorough": 300}
